@@ -2,6 +2,7 @@
   Each array-level mutation of `graph.rs` refines the list-level mutation (`Rep` is a simulation).
 -/
 import AgdbDb.Lemmas.CRep
+import AgdbDb.Lemmas.CUnlink
 namespace AgdbDb
 open Graph
 
@@ -331,5 +332,302 @@ theorem rep_insertEdge (c : CGraph) (g : Graph) (r : Rep c g) (w : g.WF) (hb : g
       cases h1 : c.validNode s <;> cases h2 : c.validNode d <;> simp
       exact hkk ⟨(r.validNode w s).mp h1, (r.validNode w d).mp h2⟩
     rw [this]; rfl
+
+theorem free_head_neg {c : CGraph} {g : Graph} (r : Rep c g) (w : g.WF) : rd c.fromMeta 0 < 0 := by
+  have h := r.free_list
+  cases hf : g.free with
+  | nil => rw [hf] at h; have : rd c.fromMeta 0 = minI := h; rw [this]; unfold minI; omega
+  | cons f rest =>
+    rw [hf] at h
+    have hpos := ((w.free_iff f).mp (by rw [hf]; simp)).1
+    rw [h.1]; omega
+
+/-- `remove_edge` on the arrays refines `remove_edge` on the list-level graph -/
+theorem rep_removeEdge (c : CGraph) (g : Graph) (r : Rep c g) (w : g.WF) (e s d : Nat) (he : g.kind e = .edge s d) :
+    ∃ c', c.removeEdge e = .ok c' ∧ Rep c' (g.removeEdge e) := by
+  have hs := w.src_node he
+  have hd := w.dst_node he
+  obtain ⟨e0, el⟩ := edge_facts w he
+  have hsl : s < g.slots.length := lt_of_kind_ne_free g s (by rw [hs]; simp)
+  have hdl : d < g.slots.length := lt_of_kind_ne_free g d (by rw [hd]; simp)
+  have hs0 : s ≠ 0 := by intro h; subst h; rw [w.slot0] at hs; cases hs
+  have hd0 : d ≠ 0 := by intro h; subst h; rw [w.slot0] at hd; cases hd
+  have hes : e ≠ s := by intro h; rw [h, hs] at he; cases he
+  have hed : e ≠ d := by intro h; rw [h, hd] at he; cases he
+  obtain ⟨E1, E2, E3⟩ := r.edge_slot e s d he
+  obtain ⟨N1, _, N3, _⟩ := r.node_slot s hs
+  obtain ⟨_, M2, _, M4⟩ := r.node_slot d hd
+  have hsn : (-(rd c.from_ e)).toNat = s := by rw [E1]; simp
+  have hdn : (-(rd c.to_ e)).toNat = d := by rw [E2]; simp
+  have heo : e ∈ g.outOf s := (w.out_iff s e).mpr ⟨d, he⟩
+  have hei : e ∈ g.inOf d := (w.in_iff d e).mpr ⟨s, he⟩
+  have out_edge : ∀ n x, x ∈ g.outOf n → ∃ b, g.kind x = .edge n b := fun n x hx => out_elem w hx
+  have in_edge : ∀ n x, x ∈ g.inOf n → ∃ a, g.kind x = .edge a n := fun n x hx => in_elem w hx
+  -- first unlink
+  obtain ⟨h1, n1, hu1, U1, U2, U3, U4, U5, U6, U7⟩ := unlink_spec c.from_ c.fromMeta c.capacity s e (g.outOf s) N1
+    (w.out_nodup s) heo
+    (fun x hx => by obtain ⟨b, hb⟩ := out_edge s x hx; rw [r.lfm]; exact (edge_facts w hb).2)
+    (by unfold CGraph.capacity; rw [r.lf, r.lfm]; exact Nat.le_refl _)
+    (by rw [r.lf]; exact hsl) (by rw [r.lfm]; exact hsl)
+    (fun hx => by obtain ⟨b, hb⟩ := out_edge s s hx; rw [hs] at hb; cases hb)
+  have hc1 : c.removeFromEdge e = .ok { c with from_ := h1, fromMeta := n1 } := by
+    unfold CGraph.removeFromEdge; rw [hsn, hu1]
+  -- second unlink
+  obtain ⟨h2, n2, hu2, V1, V2, V3, V4, V5, V6, V7⟩ := unlink_spec c.to_ c.toMeta c.capacity d e (g.inOf d) M2
+    (w.in_nodup d) hei
+    (fun x hx => by obtain ⟨b, hb⟩ := in_edge d x hx; rw [r.ltm]; exact (edge_facts w hb).2)
+    (by unfold CGraph.capacity; rw [r.lf, r.ltm]; exact Nat.le_refl _)
+    (by rw [r.lt]; exact hdl) (by rw [r.ltm]; exact hdl)
+    (fun hx => by obtain ⟨b, hb⟩ := in_edge d d hx; rw [hd] at hb; cases hb)
+  have hc2 : ({ c with from_ := h1, fromMeta := n1 } : CGraph).removeToEdge e
+      = .ok { c with from_ := h1, fromMeta := n1, to_ := h2, toMeta := n2 } := by
+    unfold CGraph.removeToEdge
+    have hcap : ({ c with from_ := h1, fromMeta := n1 } : CGraph).capacity = c.capacity := by
+      unfold CGraph.capacity; exact U1
+    simp only [hcap, hdn, hu2]
+  have hve : c.validEdge e = true := (r.validEdge w e).mpr ⟨s, d, he⟩
+  refine ⟨({ c with from_ := h1, fromMeta := n1, to_ := h2, toMeta := n2 } : CGraph).freeIndex e, ?_, ?_⟩
+  · unfold CGraph.removeEdge; rw [hve]; simp only [if_true]; rw [hc1]; simp only; rw [hc2]
+  -- the list-level result
+  obtain ⟨hk, _, hcnt, _⟩ := removeEdge_spec g w e s d he
+  obtain ⟨ho, hin, hlen, hfr⟩ := removeEdge_chains g w e s d he
+  -- reads of the final arrays
+  have hel1 : e < h1.length := by rw [U1, r.lf]; exact el
+  have hel2 : e < h2.length := by rw [V1, r.lt]; exact el
+  have heln1 : e < n1.length := by rw [U2, r.lfm]; exact el
+  have heln2 : e < n2.length := by rw [V2, r.ltm]; exact el
+  have h0n1 : 0 < (wr n1 e (rd n1 0)).length := by rw [len_wr, U2, r.lfm]; exact w.len_pos
+  have rf : ∀ j, rd (wr h1 e 0) j = if j = e then 0 else rd h1 j := fun j => rd_wr _ _ _ _ hel1
+  have rt : ∀ j, rd (wr h2 e 0) j = if j = e then 0 else rd h2 j := fun j => rd_wr _ _ _ _ hel2
+  have rtm : ∀ j, rd (wr n2 e 0) j = if j = e then 0 else rd n2 j := fun j => rd_wr _ _ _ _ heln2
+  have rfm : ∀ j, rd (wr (wr n1 e (rd n1 0)) 0 (-(e : Int))) j
+      = if j = 0 then -(e : Int) else if j = e then rd n1 0 else rd n1 j := by
+    intro j; rw [rd_wr _ _ _ _ h0n1]; split
+    · rfl
+    · rw [rd_wr _ _ _ _ heln1]
+  have hn10 : rd n1 0 = rd c.fromMeta 0 := U6 0 (fun hx => by obtain ⟨b, hb⟩ := out_edge s 0 hx; rw [w.slot0] at hb; cases hb) (Ne.symm hs0)
+  have hn20 : rd n2 0 = rd c.toMeta 0 := V6 0 (fun hx => by obtain ⟨b, hb⟩ := in_edge d 0 hx; rw [w.slot0] at hb; cases hb) (Ne.symm hd0)
+  have not_out : ∀ j, (∀ b, g.kind j ≠ .edge s b) → j ∉ g.outOf s := fun j h hx => by
+    obtain ⟨b, hb⟩ := out_edge s j hx; exact h b hb
+  have not_in : ∀ j, (∀ a, g.kind j ≠ .edge a d) → j ∉ g.inOf d := fun j h hx => by
+    obtain ⟨b, hb⟩ := in_edge d j hx; exact h b hb
+  show Rep ⟨wr h1 e 0, wr h2 e 0, wr (wr n1 e (rd n1 0)) 0 (-(e : Int)), wr n2 e 0⟩ (g.removeEdge e)
+  refine ⟨by simp only [len_wr]; rw [U1, r.lf, hlen], by simp only [len_wr]; rw [V1, r.lt, hlen],
+    by simp only [len_wr]; rw [U2, r.lfm, hlen], by simp only [len_wr]; rw [V2, r.ltm, hlen], ?_, ?_, ?_, ?_, ?_⟩
+  · -- free slots
+    intro j hj0 hkj hjl
+    rw [hk] at hkj
+    have hj0' : j ≠ 0 := by omega
+    simp only
+    rw [rf, rt, rtm, rfm]
+    by_cases hje : j = e
+    · subst hje
+      simp only [if_true, hj0', if_false]
+      exact ⟨by rw [hn10]; exact free_head_neg r w, trivial, trivial, trivial⟩
+    · simp only [hje, if_false, hj0'] at hkj ⊢
+      have hjs : j ≠ s := by intro h; rw [h, hs] at hkj; cases hkj
+      have hjd : j ≠ d := by intro h; rw [h, hd] at hkj; cases hkj
+      obtain ⟨b1, b2, b3, b4⟩ := r.free_slot j hj0 hkj (by rw [← hlen]; exact hjl)
+      refine ⟨?_, by rw [U3 j hjs]; exact b2, by rw [V3 j hjd]; exact b3, ?_⟩
+      · rw [U6 j (not_out j (fun b h => by rw [hkj] at h; cases h)) hjs]; exact b1
+      · rw [V6 j (not_in j (fun b h => by rw [hkj] at h; cases h)) hjd]; exact b4
+  · -- node slots
+    intro j hkj
+    rw [hk] at hkj
+    have hje : j ≠ e := by intro h; simp [h] at hkj
+    simp only [hje, if_false] at hkj
+    have hj0' : j ≠ 0 := by intro h; subst h; rw [w.slot0] at hkj; cases hkj
+    obtain ⟨b1, b2, b3, b4⟩ := r.node_slot j hkj
+    simp only
+    rw [ho, hin, rf, rt, rtm, rfm]
+    simp only [hje, hj0', if_false]
+    have fm_frame : ∀ l : List Nat, (∀ x ∈ l, x ≠ e ∧ x ≠ 0) →
+        ∀ x ∈ l, rd (wr (wr n1 e (rd n1 0)) 0 (-(e : Int))) x = rd n1 x := by
+      intro l hl x hx; rw [rfm]; simp only [(hl x hx).2, (hl x hx).1, if_false]
+    have tm_frame : ∀ l : List Nat, (∀ x ∈ l, x ≠ e) → ∀ x ∈ l, rd (wr n2 e 0) x = rd n2 x := by
+      intro l hl x hx; rw [rtm]; simp only [hl x hx, if_false]
+    refine ⟨?_, ?_, ?_, ?_⟩
+    · by_cases hjs : j = s
+      · subst hjs; simp only [if_true]
+        refine U4.frame (fm_frame _ ?_)
+        intro x hx
+        have hxl := List.mem_of_mem_erase hx
+        obtain ⟨b, hb⟩ := out_edge j x hxl
+        exact ⟨fun h => by subst h; exact ((w.out_nodup j).mem_erase_iff.mp hx).1 rfl, (edge_facts w hb).1⟩
+      · simp only [hjs, if_false]
+        rw [U3 j hjs]
+        have hfr1 : ∀ x ∈ g.outOf j, rd n1 x = rd c.fromMeta x := by
+          intro x hx
+          obtain ⟨b, hb⟩ := out_edge j x hx
+          refine U6 x (not_out x (fun b' h => ?_)) (fun h => by rw [h, hs] at hb; cases hb)
+          rw [hb] at h; cases h; exact hjs rfl
+        refine (b1.frame hfr1).frame (fm_frame _ ?_)
+        intro x hx
+        obtain ⟨b, hb⟩ := out_edge j x hx
+        exact ⟨fun h => by rw [h, he] at hb; cases hb; exact hjs rfl, (edge_facts w hb).1⟩
+    · by_cases hjd : j = d
+      · subst hjd; simp only [if_true]
+        refine V4.frame (tm_frame _ ?_)
+        intro x hx h; subst h
+        exact ((w.in_nodup j).mem_erase_iff.mp hx).1 rfl
+      · simp only [hjd, if_false]
+        rw [V3 j hjd]
+        have hfr1 : ∀ x ∈ g.inOf j, rd n2 x = rd c.toMeta x := by
+          intro x hx
+          obtain ⟨b, hb⟩ := in_edge j x hx
+          refine V6 x (not_in x (fun b' h => ?_)) (fun h => by rw [h, hd] at hb; cases hb)
+          rw [hb] at h; cases h; exact hjd rfl
+        refine (b2.frame hfr1).frame (tm_frame _ ?_)
+        intro x hx h
+        obtain ⟨b, hb⟩ := in_edge j x hx
+        rw [h, he] at hb; cases hb; exact hjd rfl
+    · by_cases hjs : j = s
+      · subst hjs; simp only [if_true]
+        rw [U5, b3, List.length_erase_of_mem heo]
+        have : 0 < (g.outOf j).length := List.length_pos_of_mem heo
+        omega
+      · simp only [hjs, if_false]
+        rw [U6 j (not_out j (fun b h => by rw [hkj] at h; cases h)) hjs]; exact b3
+    · by_cases hjd : j = d
+      · subst hjd; simp only [if_true]
+        rw [V5, b4, List.length_erase_of_mem hei]
+        have : 0 < (g.inOf j).length := List.length_pos_of_mem hei
+        omega
+      · simp only [hjd, if_false]
+        rw [V6 j (not_in j (fun b h => by rw [hkj] at h; cases h)) hjd]; exact b4
+  · -- edge slots
+    intro x a b hkx
+    rw [hk] at hkx
+    have hxe : x ≠ e := by intro h; simp [h] at hkx
+    simp only [hxe, if_false] at hkx
+    obtain ⟨x0, xl⟩ := edge_facts w hkx
+    have hxs : x ≠ s := by intro h; rw [h, hs] at hkx; cases hkx
+    have hxd : x ≠ d := by intro h; rw [h, hd] at hkx; cases hkx
+    obtain ⟨b1, b2, b3⟩ := r.edge_slot x a b hkx
+    simp only
+    rw [rf, rt, rfm]
+    simp only [hxe, x0, if_false]
+    refine ⟨by rw [U3 x hxs]; exact b1, by rw [V3 x hxd]; exact b2, ?_⟩
+    by_cases hxo : x ∈ g.outOf s
+    · have : x ∈ (g.outOf s).erase e := (w.out_nodup s).mem_erase_iff.mpr ⟨hxe, hxo⟩
+      exact U4.next_nonneg x this
+    · rw [U6 x hxo hxs]; exact b3
+  · -- free list
+    rw [hfr]
+    simp only
+    refine ⟨by rw [rfm]; simp, ?_⟩
+    rw [rfm]; simp only [e0, if_false, if_true]
+    have hfl := r.free_list
+    rw [← hn10] at hfl
+    refine hfl.frame ?_
+    intro f hf
+    obtain ⟨fpos, _, fk⟩ := (w.free_iff f).mp hf
+    have hf0 : f ≠ 0 := by omega
+    have hfe : f ≠ e := by intro h; rw [h, he] at fk; cases fk
+    have hfs : f ≠ s := by intro h; rw [h, hs] at fk; cases fk
+    rw [rfm]; simp only [hf0, hfe, if_false]
+    exact U6 f (not_out f (fun b h => by rw [fk] at h; cases h)) hfs
+  · simp only
+    rw [rtm]; simp only [Ne.symm e0, if_false]
+    rw [hn20, r.count, hcnt]
+
+theorem rep_removeEdge_noop (c : CGraph) (g : Graph) (r : Rep c g) (w : g.WF) (e : Nat)
+    (h : ∀ s d, g.kind e ≠ .edge s d) : c.removeEdge e = .ok c ∧ g.removeEdge e = g := by
+  refine ⟨?_, removeEdge_noop g e h⟩
+  unfold CGraph.removeEdge
+  have : c.validEdge e = false := by
+    cases hv : c.validEdge e
+    · rfl
+    · obtain ⟨s, d, hk⟩ := (r.validEdge w e).mp hv; exact absurd hk (h s d)
+  rw [this]; rfl
+
+/-- `remove_node` on the arrays refines `remove_node` on the list-level graph, for a node whose edges were already
+    removed (the only way `DbImpl::remove_node` calls it) -/
+theorem rep_removeNode (c : CGraph) (g : Graph) (r : Rep c g) (w : g.WF) (n : Nat) (hn : g.kind n = .node)
+    (ho : g.outOf n = []) (hi : g.inOf n = []) :
+    ∃ c', c.removeNode n = .ok c' ∧ Rep c' (g.removeNode n) := by
+  have hnl : n < g.slots.length := lt_of_kind_ne_free g n (by rw [hn]; simp)
+  have hn0 : n ≠ 0 := by intro h; subst h; rw [w.slot0] at hn; cases hn
+  obtain ⟨N1, N2, N3, N4⟩ := r.node_slot n hn
+  rw [ho] at N1 N3; rw [hi] at N2 N4
+  have hf0 : rd c.from_ n = 0 := N1
+  have ht0 : rd c.to_ n = 0 := N2
+  have hvn : c.validNode n = true := (r.validNode w n).mpr hn
+  obtain ⟨hco, hci, hlen, hfr, hk, hcnt⟩ := removeNode_chains g n hn ho hi
+  have hcr : c.removeNode n = .ok ({ (c.freeIndex n) with toMeta := wr (c.freeIndex n).toMeta 0 (rd (c.freeIndex n).toMeta 0 - 1) }) := by
+    unfold CGraph.removeNode
+    rw [hvn]; simp only [if_true, hf0, ht0, Int.toNat_zero]
+    simp [CGraph.removeFromEdges, CGraph.removeToEdges, ht0]
+  refine ⟨_, hcr, ?_⟩
+  have hnf : n < c.from_.length := by rw [r.lf]; exact hnl
+  have hnt : n < c.to_.length := by rw [r.lt]; exact hnl
+  have hnfm : n < c.fromMeta.length := by rw [r.lfm]; exact hnl
+  have hntm : n < c.toMeta.length := by rw [r.ltm]; exact hnl
+  have h0 : 0 < g.slots.length := w.len_pos
+  have rf : ∀ j, rd (wr c.from_ n 0) j = if j = n then 0 else rd c.from_ j := fun j => rd_wr _ _ _ _ hnf
+  have rt : ∀ j, rd (wr c.to_ n 0) j = if j = n then 0 else rd c.to_ j := fun j => rd_wr _ _ _ _ hnt
+  have rfm : ∀ j, rd (wr (wr c.fromMeta n (rd c.fromMeta 0)) 0 (-(n : Int))) j
+      = if j = 0 then -(n : Int) else if j = n then rd c.fromMeta 0 else rd c.fromMeta j := by
+    intro j; rw [rd_wr _ _ _ _ (by rw [len_wr, r.lfm]; exact h0)]; split
+    · rfl
+    · rw [rd_wr _ _ _ _ hnfm]
+  have rtm : ∀ j, rd (wr (wr c.toMeta n 0) 0 (rd (wr c.toMeta n 0) 0 - 1)) j
+      = if j = 0 then rd c.toMeta 0 - 1 else if j = n then 0 else rd c.toMeta j := by
+    intro j; rw [rd_wr _ _ _ _ (by rw [len_wr, r.ltm]; exact h0)]; split
+    · rw [rd_wr_ne _ _ _ _ (Ne.symm hn0)]
+    · rw [rd_wr _ _ _ _ hntm]
+  show Rep ⟨wr c.from_ n 0, wr c.to_ n 0, wr (wr c.fromMeta n (rd c.fromMeta 0)) 0 (-(n : Int)),
+    wr (wr c.toMeta n 0) 0 (rd (wr c.toMeta n 0) 0 - 1)⟩ (g.removeNode n)
+  refine ⟨by simp only [len_wr]; rw [r.lf, hlen], by simp only [len_wr]; rw [r.lt, hlen],
+    by simp only [len_wr]; rw [r.lfm, hlen], by simp only [len_wr]; rw [r.ltm, hlen], ?_, ?_, ?_, ?_, ?_⟩
+  · intro j hj0 hkj hjl
+    rw [hk] at hkj
+    have hj0' : j ≠ 0 := by omega
+    simp only
+    rw [rf, rt, rfm, rtm]
+    by_cases hjn : j = n
+    · subst hjn; simp only [if_true, hj0', if_false]
+      exact ⟨free_head_neg r w, trivial, trivial, trivial⟩
+    · simp only [hjn, hj0', if_false] at hkj ⊢
+      exact r.free_slot j hj0 hkj (by rw [← hlen]; exact hjl)
+  · intro j hkj
+    rw [hk] at hkj
+    have hjn : j ≠ n := by intro h; simp [h] at hkj
+    simp only [hjn, if_false] at hkj
+    have hj0' : j ≠ 0 := by intro h; subst h; rw [w.slot0] at hkj; cases hkj
+    obtain ⟨b1, b2, b3, b4⟩ := r.node_slot j hkj
+    simp only
+    rw [hco, hci, rf, rt, rfm, rtm]
+    simp only [hjn, hj0', if_false]
+    refine ⟨b1.frame ?_, b2.frame ?_, b3, b4⟩
+    · intro x hx
+      obtain ⟨b, hb⟩ := out_elem w hx
+      have hxn : x ≠ n := by intro h; rw [h, hn] at hb; cases hb
+      rw [rfm]; simp only [(edge_facts w hb).1, hxn, if_false]
+    · intro x hx
+      obtain ⟨b, hb⟩ := in_elem w hx
+      have hxn : x ≠ n := by intro h; rw [h, hn] at hb; cases hb
+      rw [rtm]; simp only [(edge_facts w hb).1, hxn, if_false]
+  · intro x a b hkx
+    rw [hk] at hkx
+    have hxn : x ≠ n := by intro h; simp [h] at hkx
+    simp only [hxn, if_false] at hkx
+    obtain ⟨x0, _⟩ := edge_facts w hkx
+    simp only
+    rw [rf, rt, rfm]; simp only [hxn, x0, if_false]
+    exact r.edge_slot x a b hkx
+  · rw [hfr]
+    simp only
+    refine ⟨by rw [rfm]; simp, ?_⟩
+    rw [rfm]; simp only [hn0, if_false, if_true]
+    refine r.free_list.frame ?_
+    intro f hf
+    obtain ⟨fpos, _, fk⟩ := (w.free_iff f).mp hf
+    have hf0' : f ≠ 0 := by omega
+    have hfn : f ≠ n := by intro h; rw [h, hn] at fk; cases fk
+    rw [rfm]; simp only [hf0', hfn, if_false]
+  · simp only
+    rw [rtm]; simp only [if_true]
+    rw [r.count, hcnt]
 
 end AgdbDb
